@@ -264,7 +264,7 @@ class RelativeBranch(Branch):
 
     def execute(self, vm):
         if self.should(vm):
-            vm.pc += self.args[0]
+            vm.pc += signed_byte(self.args[0])
         else:
             vm.pc += 1
 
@@ -274,6 +274,11 @@ class RelativeBranch(Branch):
         Return True if branching should occur, based on the virtual machine's state.
         """
         raise NotImplementedError
+
+
+def signed_byte(n: int) -> int:
+    """Interpret an operand in -128..255 as the signed byte that is encoded for it."""
+    return n - 256 if n > 127 else n
 
 
 class DebuggingOperation(AbstractOperation):
@@ -929,7 +934,7 @@ class BRR(RelativeBranch):
 
     def execute(self, vm):
         if self.args[0] != 0:
-            vm.pc += self.args[0]
+            vm.pc += signed_byte(self.args[0])
         else:
             vm.halted = True
 
